@@ -146,7 +146,7 @@ fn reassembly_step2(rel: ReliabilityKind) {
     core::mem::forget(ofr);
 }
 
-// @check props=C05,C01 tier=quick
+// @check props=C05 tier=thorough timeout=1800
 // @desc Reassembly step, RELIABLE reader (real on_data_frag_submessage): the fragment buffer holds none or one of the 2 fragments of the next expected sample, optionally plus a stale fragment of the previous sequence number; one more DATA_FRAG j (symbolic, possibly a duplicate) is delivered: exactly one change is appended iff j was the last missing fragment, with the written 3 bytes, sequence number and writer; otherwise nothing is appended and available_changes_max does not move.
 // @bounds sample of 3 bytes, fragment size 2 (2 fragments, last one short), fragments produced by the real CacheChange::as_data_frag_submessage; expected sequence number symbolic in 1..=1001; unwind 4 (3-fragment samples in any order: c05_reassembly_orders, c05_reassembly3_step_*)
 // @assume reachable fragment-buffer states never hold all fragments of a sample (completion reassembles and removes them in the same call)
@@ -160,7 +160,7 @@ fn c05_reassembly_step_reliable() {
     reassembly_step2(ReliabilityKind::Reliable);
 }
 
-// @check props=C05,C02 tier=quick
+// @check props=C05,C02 tier=thorough timeout=1800
 // @desc Reassembly step, BEST_EFFORT reader: as c05_reassembly_step_reliable, with a fragment of the NEXT sample interleaved in the buffer.
 // @bounds sample of 3 bytes, fragment size 2 (2 fragments), expected sequence number symbolic in 1..=1001; unwind 4
 // @assume reachable fragment-buffer states never hold all fragments of a sample
@@ -173,7 +173,7 @@ fn c05_reassembly_step_besteffort() {
     reassembly_step2(ReliabilityKind::BestEffort);
 }
 
-// @check props=C05 tier=quick
+// @check props=C05 tier=thorough timeout=1800
 // @desc Reassembly under every delivery order with duplicates (writer-proxy level, the two calls on_data_frag_submessage makes): 4 deliveries, each a symbolic choice among the 3 fragments of a 5-byte sample, interleaved with a fragment of another sample; after each delivery reconstruct_data_from_frag is called as the reader does: it returns a DATA submessage exactly at the first delivery after which all 3 fragments were seen, never before, and its payload is the written 5 bytes in order regardless of arrival order; afterwards no fragment of the sample stays buffered.
 // @bounds 5-byte sample, fragment size 2 (fragments of 2,2,1 bytes), 4 deliveries (covers all 3! orders and one duplicate at any position), one foreign fragment; stand-alone RtpsWriterProxy; unwind 7
 // @enc rtps::writer_proxy::RtpsWriterProxy::push_data_frag
@@ -230,13 +230,11 @@ fn c05_reassembly_orders() {
 /// matched reliable reader proxy; receives a NACK_FRAG naming the symbolic non-empty set `m` of
 /// fragment numbers (RTPS 8.3.7.10: fragmentNumberState = the fragments the reader is missing,
 /// numbered from 1; base = lowest missing).
-fn nackfrag_writer_step(strict: bool) {
+fn nackfrag_writer_step(strict: bool, m: [bool; 2]) {
     let mut w = RtpsStatefulWriter::new(s::W_GUID, 2);
     w.add_matched_reader(s::reader_proxy(ReliabilityKind::Reliable, DurabilityKind::Volatile));
     let bytes: [u8; 3] = kani::any();
     w.changes_mut().push(s::change(1, Arc::from(&bytes[..])));
-    let m: [bool; 2] = kani::any();
-    kani::assume(m[0] || m[1]);
     let base: u32 = if m[0] { 1 } else { 2 };
     let mut set = Vec::with_capacity(2);
     if m[0] {
@@ -284,17 +282,15 @@ fn nackfrag_writer_step(strict: bool) {
         assert!(resent[0] == m[0] && resent[1] == m[1],
             "C05: the fragments resent for a NACK_FRAG are exactly the fragment numbers it names (1-based on both sides)");
     }
-    kani::cover!(count > 0 && m[0] && !m[1], "fresh NACK_FRAG asking for fragment 1 only");
-    kani::cover!(count > 0 && !m[0] && m[1], "fresh NACK_FRAG asking for the last fragment only");
     kani::cover!(count > 0 && n >= 2, "at least two datagrams resent");
     kani::cover!(count <= 0, "stale NACK_FRAG");
     core::mem::forget(w);
     core::mem::forget(nf);
 }
 
-// @check props=C05,C01 tier=quick known=KF-C05-2
-// @desc NACK_FRAG numbering contract, writer side (expected to FAIL, recorded finding KF-C05-2): a writer holding a 2-fragment sample receives a fresh NACK_FRAG naming a symbolic non-empty set M of missing fragment numbers (1-based, RTPS 8.3.7.10); the DATA_FRAGs it emits (fields read at their RTPS 9.4.5.4 wire offsets) must carry exactly the fragment_starting_num values in M. The real on_nack_frag_submessage_received uses each requested number as a 0-based index into as_data_frag_submessage (which emits number index+1) and tests it with `< number_of_fragments`: it resends {m+1 : m in M, m < total} - fragment 1 is never resent, a request for the last fragment resends nothing.
-// @bounds one 3-byte change, fragment size 2 (2 fragments); M any non-empty subset of {1,2}; count full i32; unwind 4
+// @check props=C05 tier=quick known=KF-C05-2
+// @desc NACK_FRAG numbering contract, writer side (expected to FAIL, recorded finding KF-C05-2): a writer holding a 2-fragment sample receives a fresh NACK_FRAG naming the missing fragment number set M = {1} (1-based, RTPS 8.3.7.10; count symbolic); the DATA_FRAGs it emits (fields read at their RTPS 9.4.5.4 wire offsets) must carry exactly the fragment_starting_num values in M. The real on_nack_frag_submessage_received uses each requested number as a 0-based index into as_data_frag_submessage (which emits number index+1) and tests it with `< number_of_fragments`: it resends {m+1 : m in M, m < total} - fragment 1 is never resent, a request for the last fragment resends nothing.
+// @bounds one 3-byte change, fragment size 2 (2 fragments); M = {1} (the recorded trigger instance; the defect is independent of M); count full i32; unwind 4
 // @assume trigger of KF-C05-2: any fresh (count > 0) NACK_FRAG with a non-empty fragment set - the trigger is universal, so the sibling c05_nackfrag_writer_resend__rest keeps every other assertion of this obligation (stale counts ignored; whatever is resent is a well-formed, byte-correct fragment of the requested sample)
 // @assume datagram container stubbed by support_rtps::from_submessages_staged (real submessage encoders, fixed-capacity staging buffer instead of Cursor<Vec<u8>>); critical-section stubs (support_cs)
 // @enc rtps::stateful_writer::RtpsStatefulWriter::on_nack_frag_submessage_received
@@ -306,10 +302,10 @@ fn nackfrag_writer_step(strict: bool) {
 #[kani::stub(critical_section::acquire, super::support_cs::cs_acquire)]
 #[kani::stub(critical_section::release, super::support_cs::cs_release)]
 fn c05_nackfrag_writer_resend__known() {
-    nackfrag_writer_step(true);
+    nackfrag_writer_step(true, [true, false]);
 }
 
-// @check props=C05,C01 tier=quick
+// @check props=C05 tier=quick
 // @desc NACK_FRAG handling, writer side, everything except the numbering finding KF-C05-2: a NACK_FRAG whose count is not greater than the last one seen is ignored (nothing emitted); for a fresh one every emitted datagram is INFO_DST+INFO_TS+DATA_FRAG of the requested sample with fragment number in 1..=total, correct geometry (fragment_size, data_size) and exactly the payload bytes of its own fragment number; every datagram built is handed to the transport.
 // @bounds one 3-byte change, fragment size 2 (2 fragments); requested set any non-empty subset of {1,2}; count full i32; unwind 4
 // @assume datagram container stubbed by support_rtps::from_submessages_staged; critical-section stubs (support_cs)
@@ -322,5 +318,9 @@ fn c05_nackfrag_writer_resend__known() {
 #[kani::stub(critical_section::acquire, super::support_cs::cs_acquire)]
 #[kani::stub(critical_section::release, super::support_cs::cs_release)]
 fn c05_nackfrag_writer_resend__rest() {
-    nackfrag_writer_step(false);
+    let m: [bool; 2] = kani::any();
+    kani::assume(m[0] || m[1]);
+    nackfrag_writer_step(false, m);
+    kani::cover!(m[0] && !m[1], "NACK_FRAG asking for fragment 1 only");
+    kani::cover!(!m[0] && m[1], "NACK_FRAG asking for the last fragment only");
 }
